@@ -341,6 +341,29 @@ def run_c04(pid):
         for cut in range(0, len(b)):
             nid += 1
             items.append({"id": nid, "bytes": b[:cut], "bps": 16, "metaLen": g["metaLen"], "valid": False, "class": "truncation"})
+    # decodable audio behind a hostile seek table: a SEEKTABLE block spliced into the small valid streams, its points ascending but with
+    # sample / byte offsets up to 2^64 - 2, under a STREAMINFO with and without a declared total - a seek that lands on such a point
+    # and the reads after it must end in data or an error
+    U = 1 << 64
+    for g in sg:
+        b = g["bytes"]
+        if g["metaLen"] != 42:
+            continue
+        bs_ = 16
+        for pts in tuple(x for x in ([(0, 0), (U - 12, 0)], [(0, 0), (U - 2, 0)], [(U - 40, 0)], [(0, 0), (1 << 63, 0)], [(0, 0), (1 << 36, 0), (U - 2, 0)], [(0, 0), (5, U - 2)],
+                    [(0, 0), (1 << 32, 1 << 63)], [(3, 0)], [(0, 0), ((1 << 36) - 1, 0)])) + tuple([(0, 0), (U // w - 8, 0)] for w in (1, 2, 3, 4, 6, 8, 16)):
+            for known in (True, False):
+                body = []
+                for so, bo in pts:
+                    body += list(so.to_bytes(8, "big")) + list(bo.to_bytes(8, "big")) + [0, bs_]
+                bb = list(b[:42])
+                bb[4] &= 0x7F
+                if not known:
+                    bb[8 + 13] &= 0xF0
+                    bb[8 + 14:8 + 18] = [0, 0, 0, 0]
+                bb += [0x83] + list(len(body).to_bytes(3, "big")) + body + list(b[42:])
+                nid += 1
+                items.append({"id": nid, "bytes": bb, "bps": 16, "metaLen": 42 + 4 + len(body), "valid": False, "class": "hostile-seekpoints"})
     items.sort(key=lambda x: x["id"])
     by_id = {it["id"]: it for it in items}
     classes = {}
